@@ -73,7 +73,7 @@ func (g *G) Len1() int {
 const alphabet = "abcdefghijklmnopqrstuvwxyzABCDEFGHIJKLMNOPQRSTUVWXYZ0123456789/-_."
 
 // Str returns a well-formed UTF-8 string of exactly n bytes (no U+0000).
-var specials = []string{"#", "+", "a/+/b", "a/#", "$SYS/broker/load", "$share/group/topic", "/", "//", " ", "a b", "MQTT", "MQIsdp", "\u00e9\u20ac", "\U0001F600", "0", "null", "%s%d", "../x"}
+var specials = []string{"#", "+", "a/+/b", "a/#", "$SYS/broker/load", "$share/group/topic", "/", "//", " ", "a b", "MQTT", "MQIsdp", "mqtt", "Mqtt", "MQTT5", "MQT", "\u00e9\u20ac", "\U0001F600", "0", "null", "%s%d", "../x"}
 
 func (g *G) Str(n int) []byte {
 	if n == 0 {
